@@ -251,7 +251,7 @@ static bool runC01(Rng& r, const C01Case& c, const std::vector<size_t>& chunks, 
   w.chunks = chunks;
   w.start(&r);
   w.bus.burst = burst;
-  if (burst > 1 && !c.cfg.enhanced) w.bus.gluePct = r.pick(std::vector<int>{0, 30, 100});   // a SYN may arrive together with the symbols that follow it
+  if (burst > 1) w.bus.gluePct = r.pick(std::vector<int>{0, 30, 100});   // a SYN may arrive together with the symbols that follow it
   w.bus.autoSyn = !c.cfg.generateSyn;   // after the script the sync generator keeps the bus alive for a few more SYNs (unless the host generates them)
   w.bus.autoSynBudget = 6;
   for (auto& it : c.items) w.bus.script.push_back(it);
@@ -538,7 +538,7 @@ static void modeActive(long ncases, const std::string& which) {
     c.respBurst = r.chance(1, 3);
     c.burst = which == "c03" && r.chance(1, 3) ? r.pick(std::vector<int>{2, 3, 5}) : 1;
     bool hostileTraffic = which == "c03";
-    c.synGlue = !c.cfg.enhanced && r.chance(1, 3) ? r.pick(std::vector<int>{20, 50, 100}) : 0;
+    c.synGlue = r.chance(1, 3) ? r.pick(std::vector<int>{20, 50, 100}) : 0;
     int nreq = r.range(1, 3);
     int64_t at = (int64_t)r.range(150, 400) * MS;
     for (int k = 0; k < nreq; k++) {
@@ -614,7 +614,7 @@ static void modeC15(long ncases) {
     c.cfg.own = MASTERS[r.below(25)];
     c.cfg.enhanced = r.chance(1, 2);
     c.cfg.answer = true;
-    c.synGlue = !c.cfg.enhanced && r.chance(1, 3) ? r.pick(std::vector<int>{30, 100}) : 0;     // SYN and the start of the telegram in one read
+    c.synGlue = r.chance(1, 3) ? r.pick(std::vector<int>{30, 100}) : 0;     // SYN and the start of the telegram in one read
     c.cfg.lockCount = r.pick(std::vector<unsigned>{0, 3});
     uint8_t ownSlave = (uint8_t)(c.cfg.own + 5);
     // registered answers
